@@ -174,9 +174,13 @@ impl<'a> Ex<'a> {
     /// every simulated process of this workload is deterministic in its seed, so that an uncrashed
     /// run and a crashed run of the same command write the same byte stream
     fn run_seeded(&mut self, argv: Vec<String>, seed: u64, fsize: Option<u64>) -> Result<ProcOut, HarnessError> {
+        self.run_faulty(argv, seed, fsize, false)
+    }
+    fn run_faulty(&mut self, argv: Vec<String>, seed: u64, fsize: Option<u64>, as_error: bool) -> Result<ProcOut, HarnessError> {
         self.nproc += 1;
         let mut p = Proc::plain(argv, seed);
         p.fsize = fsize;
+        p.fsize_error = as_error;
         run_proc(self.dir, &p, &mut self.log)
     }
     fn run(&mut self, argv: Vec<String>) -> Result<ProcOut, HarnessError> {
@@ -261,7 +265,7 @@ impl Workload for DamageWorkload {
         vec![
             "content = k, strand mode, sample names, split k-mers and bases in stored order; the stored counts, version string and width field are not content".into(),
             "a loader panic counts as rejection (a subcommand would end with a non-zero status)".into(),
-            "crash model: the kernel short-writes and kills the writer at byte n of the output file (RLIMIT_FSIZE); metadata and directory operations are not torn".into(),
+            "crash model: the kernel short-writes at byte n of the output file (RLIMIT_FSIZE) and either kills the writer (SIGXFSZ) or fails the write with an error (disk full); metadata and directory operations are not torn".into(),
         ]
     }
     fn generate(&self, seed: u64, index: u64, tier: Tier) -> DamageCase {
@@ -479,10 +483,21 @@ impl Workload for DamageWorkload {
                     if target != "work.skf" {
                         dir.remove(target);
                     }
-                    let r = ex.run_seeded(argv.clone(), wseed, Some(n))?;
+                    // half of the injections kill the writer (power loss / kill), half make the write
+                    // fail (disk full) so that ska's own error path runs
+                    let as_error = rng.chance(50);
+                    let r = ex.run_faulty(argv.clone(), wseed, Some(n), as_error)?;
                     out.evals += 1;
                     out.distinct += 1;
-                    if r.signal != Some(libc::SIGXFSZ) && !r.refused() {
+                    if as_error {
+                        probe(&format!("c19_write_error_in_{op}"));
+                    }
+                    if as_error && r.ok() {
+                        // the failed write went unnoticed (the error surfaces only in a flush-on-drop):
+                        // not what C19 is about - what matters is what is left on the disk
+                        probe("c19_write_error_unnoticed_by_writer_exit0");
+                    }
+                    if !as_error && r.signal != Some(libc::SIGXFSZ) && !r.refused() {
                         viol = Some((format!("crash:{op}-not-interrupted"), format!("crash_at_byte({n}) of {} bytes: process ended with {}", full.len(), r.status_str())));
                         break;
                     }
